@@ -76,10 +76,6 @@ def depth(t): return 0 if is_leaf(t) else 1 + max(depth(a) for a in t[1])
 def wf(t):
     if is_leaf(t): return True
     return wf(t[1][0]) and all(is_leaf(a) for a in t[1][1:])
-def ufunc_nonleaf(t):
-    """a broadcasting binary ufunc with a non-leaf operand somewhere in the tree"""
-    if is_leaf(t): return False
-    return (t[0] in UFUNC2 and any(not is_leaf(a) for a in t[1])) or any(ufunc_nonleaf(a) for a in t[1])
 def graph_ok(t):
     """trees whose real graph is right: a generic n-ary (n>=2) node has leaf operands only; a binary ufunc at most one non-leaf"""
     if is_leaf(t): return True
@@ -137,19 +133,14 @@ def classify(line, impl, spec, model):
     p = line.split(" ")
     if p[0] != "ext": return None
     t = parse(p[3][2:])
-    if impl.startswith("trap"):
-        # sanitizer: stack-use-after-scope inside get_function_composition (function_composition.hpp:96/108)
-        return "extraction-dangling-suboperand" if ufunc_nonleaf(t) else None
+    if impl.startswith("trap"): return None
     ip = [x.strip() for x in impl.split(" | ")]; sp = [x.strip() for x in spec.split(" | ")]
-    if len(ip) != len(sp):
-        if len(ip) == 2 and ip[0] == sp[0] and ufunc_nonleaf(t): return "extraction-dangling-suboperand"
-        return None
+    if len(ip) != len(sp): return None
     classes = []
     for i, s in zip(ip, sp):
         if " ".join(i.split()) == " ".join(s.split()): continue
         if s.startswith("apply"):
             if not wf(t): classes.append("extraction-nonleaf-operand-at-position>=1")
-            elif ufunc_nonleaf(t): classes.append("extraction-dangling-suboperand")
             else: return None
         elif s.startswith("graph"):
             if not graph_ok(t): classes.append("graph-leaf-ids-restart-per-subview")
